@@ -707,6 +707,12 @@ def _discharge_assert(F, b, tb, i, t, msg, ops):
         k = op_const(idx)
         if p is not None and _bounds_guard(b, tb, i, p["l"]):
             return "dominated by `index < len` on the same counter"
+        kt = tb.operand(idx)
+        if isinstance(kt, tuple) and kt and kt[0] == "int":
+            # slice[K] in a function that receives the slice: the assert's own length operand names the container
+            cont = _len_container(tb.operand(t["ops"][0]))
+            if cont is not None and _len_guard_const(b, tb, i, None, kt[1], cont_term=cont):
+                return f"constant index {kt[1]} under a dominating length test on the same slice"
         return None
     if msg.startswith("Overflow(Add)") or msg.startswith("Overflow(Sub)"):
         tys = [_op_ty(b, o) for o in t["ops"]]
@@ -921,7 +927,7 @@ def _discharge_index(F, b, tb, i, t, cont, ity, idx):
         if k is not None and "int" in k:
             n = int(k["int"])
             # v[0] dominated by a non-empty / len test
-            if _len_guard_const(b, tb, i, t["args"][0], n):
+            if _len_guard_const(b, tb, i, t["args"][0], n, cont_term=_strip_refs(tb.operand(t["args"][0]))):
                 return f"constant index {n} under a dominating length test on the same container"
             if b.kind == "closure" and b.parent in F.bodies:
                 # container captured from the parent: the closure is created under the length test there
@@ -937,7 +943,7 @@ def _discharge_index(F, b, tb, i, t, cont, ity, idx):
                                 cap = None
                             if cap is not None:
                                 ptb = Terms(F, pb, inline_depth=0)
-                                if _len_guard_const(pb, ptb, pi, cap, n):
+                                if _len_guard_const(pb, ptb, pi, cap, n, cont_term=_strip_refs(ptb.operand(cap))):
                                     return (f"constant index {n}: the closure is created in {pb.short} under a dominating "
                                             "length test on the captured container")
             return None
@@ -947,21 +953,39 @@ def _discharge_index(F, b, tb, i, t, cont, ity, idx):
     return None
 
 
-def _len_guard_const(b, tb, bb, cont_op, n):
-    base = root_of_operand(b, cont_op)
+def _strip_refs(t):
+    while isinstance(t, tuple) and t and t[0] in ("ref", "deref", "addr") and len(t) >= 2 and isinstance(t[-1], tuple):
+        t = t[-1]
+    return t
+
+
+def _len_container(t):
+    """the container whose length the term is (`len(x)` call or the PtrMetadata of a slice), references stripped"""
+    if isinstance(t, tuple) and t:
+        if t[0] == "call" and parse_callee(t[1])[2] == "len" and t[2]:
+            return _strip_refs(t[2][0])
+        if t[0] == "un" and t[1] == "PtrMetadata":
+            return _strip_refs(t[2])
+    return None
+
+
+def _len_guard_const(b, tb, bb, cont_op, n, cont_term=None):
     for s in b.reachable():
         t = b.term(s)
         if t["k"] != "switch":
             continue
         cond = tb.operand(t["discr"])
         # is_empty() false edge
-        if isinstance(cond, tuple) and cond and cond[0] == "call" and parse_callee(cond[1])[2] == "is_empty":
+        if isinstance(cond, tuple) and cond and cond[0] == "call" and parse_callee(cond[1])[2] == "is_empty" \
+                and (cont_term is None or (cond[2] and _strip_refs(cond[2][0]) == cont_term)):
             false_t = [tb_ for v, tb_ in t["targets"] if v == "0"]
             if false_t and n == 0 and b.edge_dominates((s, false_t[0]), bb):
                 return True
         # len == k / len != k with k > n
         if isinstance(cond, tuple) and cond and cond[0] == "bin" and cond[1] in ("Eq", "Ne", "Gt", "Ge", "Lt"):
             lhs, rhs = cond[2], cond[3]
+            if cont_term is not None and _len_container(lhs) != cont_term:
+                continue
             if _is_len(lhs) and rhs[0] == "int":
                 kk = rhs[1]
                 if cond[1] == "Eq" and kk > n and b.edge_dominates((s, t["otherwise"]), bb):
